@@ -3,7 +3,7 @@
 Oracle: numpy on the dense rows.  Operations are exercised per variant where the class
 provides them and where the statement promises them (DESIGN 7.4)."""
 import numpy as np
-from ..core import CTX, attempt, held, violated, undefined, short
+from ..core import CTX, attempt, held, violated, undefined, short, deep_same
 from .. import gen, contracts, rl
 
 PROP = "C17"
@@ -328,7 +328,7 @@ def run(case):
     desc = "%s of %s" % (what, desc0)
     if not a.ok:
         return violated("%s raised %s: %s" % (desc, type(a.exc).__name__, a.exc), tags, got=repr(a))
-    if a.value != o:
+    if not deep_same(a.value, o):
         if rtol and isinstance(a.value, tuple) and a.value[0] == o[0] and close(a.value[1], o[1], rtol):
             return held(tags, nontrivial)
         return violated("%s gives %s, the dense data gives %s" % (desc, short(a.value, 220), short(o, 220)), tags, got=a.value, expected=o)
@@ -471,7 +471,7 @@ def gen_case(rng, tier, op=None, variant=None, dtype=None):
             c["uf"] = rng.choice(["negative", "absolute", "logical_not", "square"])
             return c
         if op == "scalar":
-            c.update(uf=rng.choice(["add", "subtract", "multiply", "maximum", "less", "bitwise_and", "floor_divide", "greater_equal"]), side=rng.choice("LR"), scalar=rng.choice([2, 3, 1, np.int64(2), 2.5]))
+            c.update(uf=rng.choice(["add", "subtract", "multiply", "maximum", "less", "bitwise_and", "floor_divide", "greater_equal", "hypot", "gcd", "true_divide", "power", "fmod"]), side=rng.choice("LR"), scalar=rng.choice([2, 3, 1, 0, 0, 1, np.int64(2), 2.5, 1.0]))
             u = rng.random()
             if u < 0.2:
                 c.update(scalar=rng.choice([1, 2, 100, 200, -1, 3]), zerod=rng.choice(["int64", "int64", "int32", "float64", "uint8"]))
